@@ -741,6 +741,10 @@ func (ex *Exec) siteHook(in ssa.Instruction) {
 		if !ex.siteMatches(sel, in) {
 			continue
 		}
+		if r.firedSites == nil {
+			r.firedSites = map[*Clause]bool{}
+		}
+		r.firedSites[cl] = true
 		ex.fireSite(cl, sel, in)
 	}
 }
@@ -1046,6 +1050,7 @@ func (eng *Engine) VerifyFunc(fn *ssa.Function, fc *FuncContract) (em *Emitter, 
 			ex.entryMeasure = append(ex.entryMeasure, em.define("measure0", sInt, env.evalInt(e)))
 		}
 	}
+	ex.checkSitesExist(fc)
 	ex.fireEvent("entry")
 	for _, u := range fc.Uses {
 		ex.useAxiom(u, env, "true") // instances of manual axioms over the entry state
